@@ -85,6 +85,7 @@ type violation struct {
 	Detail    string          `json:"detail"`
 	Case      json.RawMessage `json:"case"`
 	Count     int64           `json:"count"`
+	NoConfirm bool            `json:"-"`
 }
 
 type Report struct {
@@ -249,6 +250,18 @@ func (r *Report) Violation(signature string, c any, detail string) {
 	r.violOrder = append(r.violOrder, signature)
 }
 
+// ViolationNoConfirm is Violation for findings whose report is itself the
+// proof and that cannot be re-executed deterministically (a data-race report
+// of the race detector in a free-running pass): the 5x replay confirmation is skipped.
+func (r *Report) ViolationNoConfirm(signature string, c any, detail string) {
+	r.Violation(signature, c, detail)
+	r.mu.Lock()
+	if v, ok := r.viol[signature]; ok {
+		v.NoConfirm = true
+	}
+	r.mu.Unlock()
+}
+
 func (r *Report) ViolationCount() int {
 	r.mu.Lock()
 	defer r.mu.Unlock()
@@ -355,7 +368,7 @@ func Finish(c *Check, env *Env, start time.Time) int {
 			continue
 		}
 		// confirm 5x
-		if c.Replay != nil {
+		if c.Replay != nil && !v.NoConfirm {
 			ok := 0
 			var lastDetail string
 			for i := 0; i < 5; i++ {
